@@ -2,7 +2,7 @@
    that was forced on the implementation. *)
 From Coq Require Import List NArith Bool Arith.
 From AMV Require Import Conc.QueueLock Spec.C04.
-From AMV Require Run.EvalHist.
+From AMV Require Run.EvalHist Run.EvalC04p.
 Import ListNotations.
 
 (* behaviour after the release of queueProcessing: false = return (the code
@@ -70,7 +70,7 @@ Definition violations (k : c04case) : list N :=
 Definition hist_violations (k : EvalHist.hcase) : list N :=
   match EvalHist.h_open_ticks k with [] => [] | _ => [43%N] end.
 
-Inductive c04any := C04G (k : c04case) | C04H (k : EvalHist.hcase).
+Inductive c04any := C04G (k : c04case) | C04H (k : EvalHist.hcase) | C04P (k : EvalC04p.c04pcase).
 
 Definition check_one (ic : N * c04any) : list (N * N * N) :=
   let '(i, a) := ic in
@@ -78,6 +78,8 @@ Definition check_one (ic : N * c04any) : list (N * N * N) :=
   | C04G k => map (fun d => (i, 1%N, d)) (mismatch k) ++ map (fun d => (i, 2%N, d)) (violations k)
   | C04H k => map (fun d => (i, 1%N, (100 + d)%N)) (EvalHist.hist_mismatch k)
               ++ map (fun d => (i, 2%N, d)) (hist_violations k)
+  | C04P k => map (fun d => (i, 1%N, d)) (EvalC04p.mismatch k)
+              ++ map (fun d => (i, 2%N, d)) (EvalC04p.violations k)
   end.
 
 Definition check_all (cs : list (N * c04any)) : list (N * N * N) := flat_map check_one cs.
